@@ -33,12 +33,14 @@ Theorem C19_load_no_panic : forall f s, parse_config f <> Panic /\ start f s <> 
 Proof. intros f s. split; [exact (parse_config_not_panic f)|exact (start_not_panic f s)]. Qed.
 Print Assumptions C19_load_no_panic.
 
-(* for every accepted configuration, stats printing and expiry return normally, initially
-   and after every sequence of reloads with arbitrary (valid, malformed, unreadable) files *)
+(* for every accepted configuration, stats printing and expiry return normally -- on the fresh manager
+   and with the ingest pipeline launched (job buffer of capacity workers/10, 0 for 1..9 workers) --
+   initially and after every sequence of reloads with arbitrary (valid, malformed, unreadable) files *)
 Theorem C19_housekeeping_no_panic :
   forall f s m, start f s = Ok m ->
-    housekeeping m = Ok tt /\
-    forall l, exists m', reloads m l = Ok m' /\ housekeeping m' = Ok tt.
+    housekeeping m = Ok tt /\ housekeeping (launch m) = Ok tt /\
+    forall l, (exists m', reloads m l = Ok m' /\ housekeeping m' = Ok tt) /\
+              (exists m', reloads (launch m) l = Ok m' /\ housekeeping m' = Ok tt).
 Proof. exact housekeeping_no_panic. Qed.
 Print Assumptions C19_housekeeping_no_panic.
 
@@ -47,7 +49,7 @@ Theorem C19_reload_part_atomic :
   forall m f s m', on_reload m f s = Ok m' ->
     m_policy m' = (match cfg_loaded f with Some c => c_policy c | None => m_policy m end) /\
     m_sel m' = (match cfg_loaded f, sub_loaded s with Some _, Some g => g | _, _ => m_sel m end) /\
-    m_tester m' = m_tester m.
+    m_tester m' = m_tester m /\ m_pipe m' = m_pipe m.
 Proof. exact reload_part_atomic. Qed.
 Print Assumptions C19_reload_part_atomic.
 
